@@ -184,7 +184,8 @@ class ArrayConstraintBuilder(ConstraintOverrideVisitor):
     def visit_field_scalar_array(self, f:FieldArrayModel):
         if self.phase == 0:
             # TODO: this logic is for rand-sized array fields
-            if f.is_rand_sz:
+            # (a list that is not random in this call keeps its elements)
+            if f.is_rand_sz and f.is_used_rand:
                 size_bound = self.bound_m[f.size]
                 range_l = size_bound.domain.range_l
                 max_size = int(range_l[-1][1])
